@@ -296,6 +296,7 @@ func C11(c *core.Ctx) {
 	}
 	c11malformed(c)
 	c11kinds(c)
+	c11caseIndex(c)
 	c11deviations(c)
 }
 
@@ -733,6 +734,185 @@ func c11deviations(c *core.Ctx) {
 				continue
 			}
 			c.Violation(core.Replay{Kind: "property-failure", Class: id, Summary: fmt.Sprintf("%s: %s", dv.stmt, res), Input: fmt.Sprintf(c11devBase, dv.stmt)})
+		}
+	}
+}
+
+// generated choices whose cases (explicit and shorthand) hold nodes guarded by f, h, "not f" or nothing, under the four
+// configurations of f and h: the cases that remain and the names by which the holder of the choice reaches their nodes,
+// against Model/CaseIndex.lean (enterChoice, holderIndex)
+func c11caseIndex(c *core.Ctx) {
+	rng := core.NewRng(c.Seed + 1111)
+	guards := []string{"", "f", "h", "not f", "f and h", "f or h"}
+	holds := func(g string, f, h bool) bool {
+		switch g {
+		case "f":
+			return f
+		case "h":
+			return h
+		case "not f":
+			return !f
+		case "f and h":
+			return f && h
+		case "f or h":
+			return f || h
+		}
+		return true
+	}
+	type cnode struct{ name, guard string }
+	type ccase struct {
+		name    string
+		implied bool
+		nodes   []cnode
+	}
+	var lines, lib, descs []string
+	var inputs []interface{}
+	for ci := 0; ci < c.N(30, 400); ci++ {
+		r := rng.Fork()
+		var cases []ccase
+		seq := 0
+		for k := 0; k < 1+r.Intn(4); k++ {
+			seq++
+			if r.Chance(40) {
+				n := fmt.Sprintf("s%d", seq)
+				cases = append(cases, ccase{n, true, []cnode{{n, core.Pick(r, guards)}}})
+				continue
+			}
+			cs := ccase{name: fmt.Sprintf("k%d", seq)}
+			for j, nn := 0, 1+r.Intn(3); j < nn; j++ {
+				seq++
+				cs.nodes = append(cs.nodes, cnode{fmt.Sprintf("n%d", seq), core.Pick(r, guards)})
+			}
+			cases = append(cases, cs)
+		}
+		var y strings.Builder
+		holder := core.Pick(r, []string{"container", "list", "module"})
+		y.WriteString("module ci { namespace \"urn:ci\"; prefix ci; revision 2020-01-01; feature f; feature h;\n")
+		switch holder {
+		case "container":
+			y.WriteString(" container box { leaf before { type string; }\n")
+		case "list":
+			y.WriteString(" list box { key before; leaf before { type string; }\n")
+		default:
+			y.WriteString(" leaf before { type string; }\n")
+		}
+		y.WriteString("  choice kind {\n")
+		for _, cs := range cases {
+			wr := func(n cnode) {
+				g := ""
+				if n.guard != "" {
+					g = fmt.Sprintf("if-feature %q; ", n.guard)
+				}
+				fmt.Fprintf(&y, "    leaf %s { %stype string; }\n", n.name, g)
+			}
+			if cs.implied {
+				wr(cs.nodes[0])
+				continue
+			}
+			fmt.Fprintf(&y, "   case %s {\n", cs.name)
+			for _, n := range cs.nodes {
+				wr(n)
+			}
+			y.WriteString("   }\n")
+		}
+		y.WriteString("  }\n leaf after { type string; }\n")
+		if holder != "module" {
+			y.WriteString(" }\n")
+		}
+		y.WriteString("}\n")
+		for cfg := 0; cfg < 4; cfg++ {
+			fOn, hOn := cfg&1 == 1, cfg&2 == 2
+			var on []string
+			if fOn {
+				on = append(on, "f")
+			}
+			if hOn {
+				on = append(on, "h")
+			}
+			c.Evaluations++
+			c.Count("case-index", holder)
+			c.Distinct(fmt.Sprint("caseindex", ci, cfg))
+			line := []string{"c11", "caseindex", fmt.Sprint(len(cases))}
+			for _, cs := range cases {
+				line = append(line, cs.name, map[bool]string{true: "1", false: "0"}[cs.implied], fmt.Sprint(len(cs.nodes)))
+				for _, n := range cs.nodes {
+					line = append(line, n.name, map[bool]string{true: "1", false: "0"}[holds(n.guard, fOn, hOn)])
+				}
+			}
+			var res string
+			perr := safeDo(func() error {
+				m, err := parser.LoadModuleFromStringWithOptions(nil, y.String(), parser.Options{Features: meta.FeaturesOn(on)})
+				if err != nil {
+					return fmt.Errorf("valid module does not load: %v", err)
+				}
+				var h meta.HasDataDefinitions = m
+				if holder != "module" {
+					h = meta.Find(m, "box").(meta.HasDataDefinitions)
+				}
+				var ch *meta.Choice
+				for _, d := range h.DataDefinitions() {
+					if x, ok := d.(*meta.Choice); ok {
+						ch = x
+					}
+				}
+				if ch == nil {
+					return fmt.Errorf("the choice is gone")
+				}
+				// cases in the order they are written
+				have := map[string]bool{}
+				for _, id := range ch.CaseIdents() {
+					have[id] = true
+				}
+				var cn, idx []string
+				for _, cs := range cases {
+					if have[cs.name] {
+						cn = append(cn, cs.name)
+					}
+				}
+				if len(cn) != len(have) {
+					return fmt.Errorf("cases %v, some of which the module does not write", ch.CaseIdents())
+				}
+				for _, cs := range cases {
+					for _, n := range cs.nodes {
+						byName := h.(meta.HasDefinitions).Definition(n.name) != nil
+						inCase := have[cs.name] && ch.Cases()[cs.name].DataDefinition(n.name) != nil
+						byFind := meta.Find(h.(meta.HasDefinitions), n.name) != nil
+						if byName != inCase || byName != byFind {
+							return fmt.Errorf("node %s: by name from the holder %v, by meta.Find %v, in its case %v", n.name, byName, byFind, inCase)
+						}
+						if byName {
+							idx = append(idx, n.name)
+						}
+					}
+				}
+				if h.(meta.HasDefinitions).Definition("before") == nil || h.(meta.HasDefinitions).Definition("after") == nil {
+					return fmt.Errorf("the siblings of the choice are not reachable by name")
+				}
+				res = "cases " + strings.Join(cn, ",") + " index " + strings.Join(idx, ",")
+				return nil
+			})
+			if perr != nil {
+				res = perr.Error()
+			}
+			lines = append(lines, strings.Join(line, " "))
+			lib = append(lib, res)
+			descs = append(descs, fmt.Sprintf("choice in a %s, features %v", holder, on))
+			inputs = append(inputs, map[string]interface{}{"module": y.String(), "features": on})
+		}
+	}
+	outs, err := core.RunDriver(lines)
+	if err != nil {
+		c.ProofBroken = append(c.ProofBroken, err.Error())
+		return
+	}
+	for i, o := range outs {
+		model := strings.Join(strings.Fields(o), " ")
+		lib[i] = strings.Join(strings.Fields(lib[i]), " ")
+		if i%97 == 0 {
+			c.Sample(map[string]string{"case": descs[i], "library": lib[i], "model": model})
+		}
+		if model != lib[i] {
+			c.Violation(core.Replay{Kind: "property-failure", Class: "case-index", Summary: fmt.Sprintf("%s: the library has %q; the model (Model/CaseIndex: nodes and shorthand cases that if-features leave) has %q", descs[i], lib[i], model), Input: inputs[i], Impl: lib[i], Model: model})
 		}
 	}
 }
